@@ -83,6 +83,9 @@ void sym_note(const char *msg, uint64_t v) { printf("NOTE %s %" PRIu64 "\n", msg
 void sym_notef(const char *msg, double v) { printf("NOTEF %s %.17g\n", msg, v); }
 void sym_cover(const char *name) { printf("COVER %s\n", name); }
 int sym_is_replay(void) { return 1; }
+void sym_capture_reset(void) { }
+uint64_t sym_capture_count(void) { return 0; }
+double sym_capture_f64(uint64_t i) { (void)i; return 0.0; }
 
 void sym_end(void)
 {
